@@ -280,4 +280,17 @@ def run(chk, ctx):
     chk.ob('C11.S', 'switch read site', reads_in_body and not in_defaults,
            'table_integer reads the global by name in its body',
            site='pamqp/encode.py')
+    deco = []
+    for short in sorted(ladder_funcs | {'encode.encode_table_value',
+                                        'encode.field_table',
+                                        'encode.field_array'}):
+        fi_ = prog.functions.get('pamqp.' + short)
+        if fi_ is not None and fi_.node.decorator_list:
+            deco.append('%s: %s' % (short, ', '.join(
+                ast.unparse(d) for d in fi_.node.decorator_list)))
+    chk.ob('C11.S', 'ladder functions undecorated', not deco,
+           'the switch is consulted on every call: no wrapper (cache, '
+           'memo) sits in front of the ladder' if not deco else
+           'decorated: %s (a cached result ignores a later toggle)' % deco,
+           site='pamqp/encode.py')
     chk.units['ladder_functions'] = sorted(ladder_funcs)
